@@ -11,3 +11,15 @@ func cdbHash() hash.Hash32 {
 	d := spooky.New(0, 0)
 	return d
 }
+
+// keyHash returns the hash of a record key exactly as the writers compute it
+// (one Write of the key into a fresh cdbHash).
+//
+// It must not be replaced by the one-shot spooky.Hash32: for keys of 96 to 191
+// bytes the library's streaming and one-shot forms give different results, and
+// a record whose stored hash differs from the looked-up hash is never found.
+func keyHash(key []byte) uint32 {
+	d := cdbHash()
+	d.Write(key)
+	return d.Sum32()
+}
